@@ -51,6 +51,23 @@ def judge_batch(cases):
   return out
 
 
+def quirk_explains(prog, res, pred):
+  """True when the rows of `pred` equal the evaluator's rows once List/Set/Count are read the way the
+  SQLite templates compute them (nulls kept, [] / 0 for no input) - the known deviation from the
+  documented null rules (known_findings: C02 sqlite-aggregate-null-rules)."""
+  nm = G.Names()
+  for d in prog:
+    nm.pred(d['name'])
+  ptxt = G.c_program(prog, nm)
+  import re as _re
+  ptxt = _re.sub(r'\bAList\b', 'AListQ', ptxt)
+  ptxt = _re.sub(r'\bASet\b', 'ASetQ', ptxt)
+  ptxt = _re.sub(r'\bACount\b', 'ACountQ', ptxt)
+  q, order = R.coq_query(prog, {pred: res[pred]}, nm)
+  vals = R.eval_batch(['check_program %s %s' % (ptxt, q)])
+  return vals[0] is not None and vals[0] == [0]
+
+
 def problems(prog, j, expect_reject=False):
   """List of (pred, kind, detail) where the implementation departs from the evaluator."""
   out = []
@@ -180,6 +197,12 @@ def run_core(rep, pid, tier, profile, variants, n_quick, n_thorough, salt, repla
   seen_keys = set()
   for s, vname, prog, text, pred, kind, detail, j in found:
     key = accept_key(kind, detail, vname)
+    if kind == 'wrong-rows':
+      try:
+        if quirk_explains(prog, j['impl'], pred):
+          key = 'sqlite-aggregate-null-rules'
+      except Exception:  # pylint: disable=broad-except
+        pass
     if key in seen_keys and reported >= 3:
       continue
     seen_keys.add(key)
@@ -202,6 +225,8 @@ def run_core(rep, pid, tier, profile, variants, n_quick, n_thorough, salt, repla
               'predicate is executed on SQLite and compared as a bag with the reference evaluator; '
               'non-trivial = derived predicate with a non-empty result' % [v for v, _ in variants],
       'programs': len(progs),
+      'explanation': 'theorems of Props/%s.v are about the reference evaluator (the documented meaning); the compiler is '
+                     'tied per generated program by comparing SQLite rows with the evaluator (differential run)' % pid,
       'predicates_compared': evaluated,
       'generator_rejected_by_evaluator': rejected_by_model,
       'cases_skipped_worker_died_or_slow': skipped_cases[:20],
